@@ -312,6 +312,106 @@ def eval_pack(items, scratch, timeout_s, mode="sym", env=None, prefilter=True):
     return out
 
 
+
+# ------------------------------------------------------------------ modular documents: an unqualified name means the variable of THAT model
+
+MOD_MODELS = [None, "Region", "Export"]
+MOD_EQS = [("x0", "a * b + a", lambda a, b: a * b + a),
+           ("x1", "a - b * 2", lambda a, b: a - b * 2),
+           ("x2", "(a + b) * (a - b)", lambda a, b: (a + b) * (a - b))]
+MOD_PROBE = {(None, "a"): 11.5, (None, "b"): 13.25, ("Region", "a"): 17.5, ("Region", "b"): 19.75, ("Export", "a"): 23.5, ("Export", "b"): 29.125}
+
+
+def modules_doc(same_text=True):
+    """root model and two sub-models; every model owns a, b and x0..x2; the equations of x_i are spelled with exactly the
+    same text in the three models (same_text) or with a different spacing per model"""
+    def body(mi):
+        vs = [X.aux("a", repr(MOD_PROBE[(MOD_MODELS[mi], "a")])), X.aux("b", repr(MOD_PROBE[(MOD_MODELS[mi], "b")]))]
+        for nm, tx, _ in MOD_EQS:
+            vs.append(X.aux(nm, tx if same_text else tx.replace(" ", " " * (mi + 1))))
+        return "".join(vs)
+    text = X.HEADER % ("mods", "0", "4", "<dt>1</dt>") + body(0)
+    text += "".join("\t\t\t<module name=\"%s\"/>\n" % m for m in MOD_MODELS[1:]) + "\t\t</variables>\n\t</model>\n"
+    for mi in (1, 2):
+        text += "\t<model name=\"%s\">\n\t\t<variables>\n%s\t\t</variables>\n\t</model>\n" % (MOD_MODELS[mi], body(mi))
+    return text + "</xmile>\n"
+
+
+def eval_modules(scratch, timeout_s, mode="sym", env=None, same_text=True):
+    """-> list of (model, variable, status, info)"""
+    env = env or {}
+    mod = X.compile_doc(modules_doc(same_text), scratch)
+    model = mod.simulation_model()
+    keys = X.find_keys(model, {"%s|%s" % (m or "", l): v for (m, l), v in MOD_PROBE.items()}, TEVAL)
+    if len(keys) != len(MOD_PROBE):
+        raise KeyError("leaf variables of the modular document not found: %s among %s" % (sorted(keys), list(model.equations)[:12]))
+    sym = lambda m, l: "%s_%s" % (l, (m or "root").lower())
+    leaf = (lambda m, l: S.v(sym(m, l))) if mode == "sym" else (lambda m, l: float(env.get(sym(m, l), MOD_PROBE[(m, l)])))
+    for (m, l) in MOD_PROBE:
+        model.equations[keys["%s|%s" % (m or "", l)]] = (lambda v: (lambda t: v))(leaf(m, l))
+    out = []
+    for m in MOD_MODELS:
+        # the key of x_i of model m: the key of its leaf a with the last component replaced (no copy of the sanitiser)
+        ka = keys["%s|a" % (m or "")]
+        for nm, tx, f in MOD_EQS:
+            key = ka[:-1] + nm
+            if key not in model.equations:
+                out.append((m, nm, "violated", {"_what": "variable %s is missing from the transpiled model" % key}))
+                continue
+            want = f(leaf(m, "a"), leaf(m, "b"))
+
+            def run():
+                for k in model.memo:
+                    model.memo[k] = {}
+                try:
+                    return ("val", model.memoize(key, TEVAL))
+                except Exception as e:
+                    return ("exc", e)
+            if mode != "sym":
+                r = run()
+                if r[0] == "exc":
+                    out.append((m, nm, "refused", "evaluation raised %s" % type(r[1]).__name__))
+                elif abs(float(r[1]) - float(want)) > 1e-9 * (1 + abs(float(want))):
+                    out.append((m, nm, "violated", {"_what": "%s = %r, the document means %r" % (key, float(r[1]), float(want))}))
+                else:
+                    out.append((m, nm, "holds", None))
+                continue
+            try:
+                paths = S.explore(run, max_paths=8)
+            except (S.PathCapExceeded, S.SolverUnknown, S.SymbolicEscape) as e:
+                out.append((m, nm, "unknown", "explore: %r" % (e,)))
+                continue
+            st, info = "holds", None
+            for p in paths:
+                if p.exc is not None:
+                    st, info = "unknown", "harness: %r" % (p.exc,)
+                    break
+                if p.out[0] == "exc":
+                    st, info = "refused", "evaluation raised %s" % type(p.out[1]).__name__
+                    break
+                ti, tr = S.term_of(p.out[1]), S.term_of(want)
+                v = solve.prove_equal(ti, tr, p.pc, timeout_s=timeout_s)
+                if v.status == "violated":
+                    st, info = "violated", dict(solve.complete_model(v.model, ti, tr, *p.pc), _what="%s does not refer to the variables of its own model" % key)
+                    break
+                if v.status == "unknown":
+                    st, info = "unknown", v.detail
+                    break
+            out.append((m, nm, st, info))
+    return out
+
+
+def replay_modules(case):
+    scratch = tempfile.mkdtemp(prefix="c03-")
+    try:
+        for env in (case.get("env", {}), {}):
+            for m, nm, st, info in eval_modules(scratch, 0, "float", env, case.get("same_text", True)):
+                if st == "violated":
+                    return True, "modular document, model %s, variable %s: %s" % (m or "(root)", nm, info.get("_what"))
+        return False, "modular document: every variable refers to the variables of its own model"
+    finally:
+        shutil.rmtree(scratch, ignore_errors=True)
+
 # ------------------------------------------------------------------ replay
 
 def _tup(x):
@@ -325,6 +425,8 @@ ENVS = [{}, {"a": 3.5, "b": 1.25, "c_var": 2.0, "Dd": 0.5}, {"a": -1.5, "b": 2.5
 
 
 def replay(case):
+    if case.get("kind") == "modules":
+        return replay_modules(case)
     scratch = tempfile.mkdtemp(prefix="c03-")
     try:
         if case.get("kind") == "unsupported":
@@ -506,6 +608,26 @@ def run(tier):
             uns += 1
             if r["u"][0] == "value":
                 rep.candidate("unsupported:" + tx, {"kind": "unsupported", "text": tx}, "unsupported equation %r produced the value %r" % (tx, r["u"][1][0]))
+        # modular documents: the same equation text in the root model and two sub-models, and a control with other spacing
+        mods = 0
+        for same in (True, False):
+            try:
+                mres = eval_modules(scratch, _G.get("timeout", 20), "sym", None, same)
+            except S.SymbolicEscape as e:
+                rep.inconcl("modular document: %r" % (e,))
+                continue
+            except Exception as e:
+                rep.notes.append("modular document (same_text=%s) refused by the pipeline: %s" % (same, type(e).__name__))
+                continue
+            for m, nm, st, info in mres:
+                mods += 1
+                counts[st] = counts.get(st, 0) + 1
+                if st == "violated":
+                    env = {k: float(v) for k, v in info.items() if isinstance(v, (Fraction, int, float)) and not isinstance(v, bool)}
+                    rep.candidate("modules:%s" % ("same-text" if same else "other-spacing"), {"kind": "modules", "same_text": same, "env": env},
+                                  "modular document, model %s, variable %s: %s" % (m or "(root)", nm, info.get("_what")))
+                elif st == "unknown":
+                    rep.inconcl("modular document %s.%s: %s" % (m, nm, info))
         rep.canary("explicit-parentheses-dropped", canary_minus_flattened(scratch))
         rep.canary("MIN-transpiled-as-MAX", canary_min_as_max(scratch))
     finally:
@@ -525,8 +647,8 @@ def run(tier):
                "names generated code resolves in its module (max, min, sum, math, np, random) are vsym stubs; evaluation at t=2 of a 0..4 dt=1 model",
                "a loud refusal (parse/compile/evaluation exception) is accepted; only a wrong VALUE is a violation")
     rep.coverage.update({"programs": len(allitems) + uns, "disagreements_checked": len(bad), "samples": samples, "verdicts": counts,
-                         "equations": len(items), "spelling_variants": len(var_items), "unsupported_forms": uns, "exhaustive": True,
+                         "equations": len(items), "spelling_variants": len(var_items), "unsupported_forms": uns, "module_variables": mods, "exhaustive": True,
                          "canonical_spellings_refused": canon_refused[:60],
-                         "bounds": "equation ASTs depth <= 3 over 6 binary operators, unary minus, parentheses, IF/AND/OR/NOT, 6 comparisons, 15 built-ins; 10 spelling styles",
-                         "outside": "arrays, modules, stochastic/financial built-ins, PREVIOUS, DELAY*/SMTH* (C04), hand-written documents"})
+                         "bounds": "equation ASTs depth <= 3 over 6 binary operators, unary minus, parentheses, IF/AND/OR/NOT, 6 comparisons, 15 built-ins; 10 spelling styles; one modular document shape (root + 2 sub-models, 3 equations with identical / differently spaced text per model)",
+                         "outside": "arrays, module connects / cross-module references, stochastic/financial built-ins, PREVIOUS, DELAY*/SMTH* (C04), hand-written documents"})
     return rep.finish()
